@@ -545,7 +545,7 @@ pub fn run_c01() {
     let mut rep = Report::new("C01", "model_checking");
     let thorough = rep.thorough();
     let k: u32 = std::env::var("VERIF_K").ok().and_then(|v| v.parse().ok()).unwrap_or(if thorough { 5 } else { 3 });
-    let (stats, found, samples) = explore("C01", thorough, mc::budget(thorough, 50.0, 1.0), k);
+    let (stats, found, samples) = explore("C01", thorough, mc::budget(thorough, 60.0, 1.0), k);
     rep.set("states", stats.states);
     rep.set("transitions", stats.transitions);
     rep.set("traces_validated_against_impl", stats.executions);
